@@ -133,23 +133,25 @@ def hostile_scenario(dll, seed, maxlen=60):
     return sc
 
 
-def alphabet_points(dll, tier):
+def alphabet_points(dll, tier, mod=None, bam=False):
     """(b1) the hostile alphabet of the TLC model (exported from the specification by TLC itself) injected after
     EVERY bus frame of a running transfer (and before it), singly and - thorough - in pairs"""
     from vlib import tlc
     fd = dll == "j1939-22"
-    mod = "MC_Tp22_c07" if fd else "MC_Tp21_c07"
+    mod = mod or ("MC_Tp22_c07" if fd else "MC_Tp21_c07")
     adv = tlc.evaluate(mod, "SetToSeq(MC_Adv)", base_cfg=mod + ".cfg", tag="adv" + dll[-2:])
     adv = sorted(adv, key=lambda f: (f["to"], f["id"], f["data"]))
     size = 121 if fd else 15
     base = {"dll": dll, "nodes": [node("A", [0x10], 1000, 2), node("B", [0x20], 1000, 1)],
             "sends": [send(0, "A", 0x10, 0xD0, 0x20, size, salt=1)], "dur": 3_000_000}
+    if bam:                              # the running transfer is a broadcast (the forged frames carry its session key)
+        base["sends"] = [send(0, "A", 0x10, 0xFE, 0x31, size, salt=1)]
     _, sim0 = scen.run(dict(base, expect={"all": True, "idle": True}))
     frame_times = sorted(set(e["t"] for e in sim0.trace if e["ev"] == "tx"))
     points = [-500] + [t + 1 for t in frame_times] + [frame_times[-1] + 400_000, frame_times[-1] + 1_300_000]
     out = []
     t_probe = 9_000_000
-    fin = [send(t_probe + 200_000, "A", 0x10, 0xD0, 0x20, size + 1, salt=90),
+    fin = [send(t_probe + 200_000, "A", 0x10, 0xFE if bam else 0xD0, 0x31 if bam else 0x20, size + 1, salt=90),
            send(t_probe + 200_000, "B", 0x20, 0xD3, 0x10, size + 2, salt=91)]
     import itertools
     singles = [(f,) for f in adv]
@@ -190,10 +192,13 @@ def run(chk, replay):
     quick = chk.tier == "quick"
     chk.model("MC_Tp21_c07.tla", "MC_Tp21_c07.cfg" if quick else "MC_Tp21_c07t.cfg", timeout=3000)
     chk.model("MC_Tp22_c07q.tla" if quick else "MC_Tp22_c07.tla", "MC_Tp22_c07q.cfg" if quick else "MC_Tp22_c07t.cfg", timeout=6000)
+    chk.model("MC_Tp22_c07b.tla", "MC_Tp22_c07b.cfg", timeout=3000)       # control frames forged with source address 255 (F32)
     n = 150 if quick else 2500
     for dll, spec in (("j1939-21", "Tp21Trace"), ("j1939-22", "Tp22Trace")):
         scs = [hostile_scenario(dll, chk.seed * 1000003 + i, 60 if i % 4 else 8) for i in range(n)]
         scs += alphabet_points(dll, chk.tier)
+        if dll == "j1939-22":
+            scs += alphabet_points(dll, chk.tier, mod="MC_Tp22_c07b", bam=True)
         traces = [scen.run(sc)[0] for sc in scs]
         chk.validate(spec + ".tla", spec + ".cfg", traces, "h" + dll[-2:], nontrivial=nontrivial)
 
